@@ -27,6 +27,9 @@ package announce
 //@   shutdown done
 //@   ensures-local old(r.closed) ==> result == nil && count("close:done") == 0
 //@   ensures-local !old(r.closed) ==> count("close:done") == 1
+// Close waits for the watcher without holding the receiver's mutex (the watcher needs it to finish the
+// announcement it may be handling), and only after it has told waiters and the watcher to stop:
+//@   at recv watchDone: assert !held(r.announceMutex) && count("close:done") == 1 && count("call:cancelWatch") == 1
 
 //@ func (*Receiver).Next
 //@   property C16
